@@ -352,7 +352,23 @@ def runOps (ctx : Ctx) (fns : List Fn) : List Op â†’ Nat â†’ St â†’ List OpRes â
     match step ctx fns st i op with
     | (st', r) => runOps ctx fns rest (i + 1) st' (r :: acc)
 
-def Program.ctx (p : Program) : Ctx := { cfg := p.cfg, env := p.types, script := p.script, sameIds := p.sameIds }
+/-- is `t` a value type (not an interface) that implements `error`? -/
+def isValErrT (env : TyEnv) : GoT â†’ Bool
+  | .univ i => (match env.info i with | some ti => ti.isErr && ti.kind != .iface | none => false)
+  | _ => false
+
+/-- the entry of `Ctx.forced` for one function: `none` when no result is a value-typed error -/
+def forcedOf (env : TyEnv) (fn : Fn) : Option (Nat Ã— Nat Ã— Bool) :=
+  let eo := errOuts env fn
+  let isV (i : Nat) : Bool := isValErrT env (fn.outs.getD i (.univ 0))
+  if isV (fn.outs.length - 1) && fn.outs.length != 0 then some (fn.id, eo.length - 1, true)
+  else match eo.findIdx? isV with
+    | some j => some (fn.id, j, false)
+    | none => none
+
+def Program.ctx (p : Program) : Ctx :=
+  { cfg := p.cfg, env := p.types, script := p.script, sameIds := p.sameIds,
+    forced := p.fns.filterMap (forcedOf p.types) }
 
 def runProgram (p : Program) : St Ã— List OpRes :=
   runOps p.ctx p.fns p.ops 0 {} []
